@@ -30,9 +30,25 @@ def rpred(rng, xml=False):
     return riri(rng) if rng.random() < 0.85 else RDF.type
 
 
+XML_FRAGMENTS = ['<h:b xmlns:h="urn:h#">one</h:b> and <h:i xmlns:h="urn:h#">two</h:i>', 'plain text &amp; more',
+                 '<h:b xmlns:h="urn:h#" a="1">x<h:c>y</h:c></h:b>', '<h:a xmlns:h="urn:h#">1</h:a><h:b xmlns:h="urn:h#">2</h:b><h:c xmlns:h="urn:h#">z</h:c>',
+                 'lead <h:b xmlns:h="urn:h#">b</h:b> mid <h:b xmlns:h="urn:h#">again</h:b> tail']
+
+
+def xml_tree_key(lexical):
+    """namespace-resolved structure of an XML literal's content (what the lexical form denotes, whatever prefixes and declarations spell it)"""
+    import xml.etree.ElementTree as ET
+    def k(e): return (e.tag, tuple(sorted(e.attrib.items())), e.text or "", tuple(k(c) for c in e), e.tail or "")
+    try:
+        return k(ET.fromstring("<r>" + lexical + "</r>"))
+    except Exception as ex:
+        return ("not well-formed", lexical)
+
+
 def rlit(rng, xml=False):
     pool = XML_STR if xml else STR
     k = rng.random()
+    if xml and k < 0.1: return Literal(rng.choice(XML_FRAGMENTS), datatype=RDF.XMLLiteral, normalize=False)
     if k < 0.35: return Literal(rng.choice(pool))
     if k < 0.5: return Literal(rng.choice(pool), lang=rng.choice(LANGS))
     if k < 0.62: return Literal(rng.choice(["0", "1", "-5", "+7", "007"]), datatype=XSD.integer)
@@ -463,7 +479,7 @@ def write_rdfxml(rng, content):
             elif rng.random() < 0.05: out.append("&#x%X;" % ord(ch) if rng.random() < 0.5 else "&#%d;" % ord(ch))
             else: out.append(ch)
         return "".join(out)
-    used_ids = set()
+    used_ids = set(); need_h = [False]
     def subj_attr(s):
         if isinstance(s, BNode): return ' rdf:nodeID="%s"' % s
         frag = str(s)[len(cur_base[0]) + 1:] if cur_base[0] and str(s).startswith(cur_base[0] + "#") else None
@@ -489,6 +505,14 @@ def write_rdfxml(rng, content):
         if isinstance(o, URIRef):
             if rng.random() < 0.3: return "<%s>%s</%s>" % (tag, '<rdf:Description rdf:about="%s"/>' % xesc(ref(o), True), tag)
             return '<%s rdf:resource="%s"/>' % (tag, xesc(ref(o), True))
+        if o.datatype == RDF.XMLLiteral:
+            frag = str(o)
+            if rng.random() < 0.6:
+                # the h: prefix is declared further out (on the property element or on rdf:RDF): the literal's own elements carry no declaration
+                frag = frag.replace(' xmlns:h="urn:h#"', "")
+                if rng.random() < 0.5: return '<%s rdf:parseType="Literal" xmlns:h="urn:h#">%s</%s>' % (tag, frag, tag)
+                need_h[0] = True
+            return '<%s rdf:parseType="Literal">%s</%s>' % (tag, frag, tag)
         if o.language:
             if lang_ctx and lang_ctx == o.language and rng.random() < 0.7: return "<%s>%s</%s>" % (tag, text(str(o)), tag)
             return '<%s xml:lang="%s">%s</%s>' % (tag, o.language, text(str(o)), tag)
@@ -535,6 +559,7 @@ def write_rdfxml(rng, content):
     head = '<?xml version="1.0" encoding="utf-8"?>\n<rdf:RDF xmlns:rdf="%s"' % str(RDF)
     for n_, p in ns.items():
         if p != "rdf": head += ' xmlns:%s="%s"' % (p, n_)
+    if need_h[0]: head += ' xmlns:h="urn:h#"'
     if default_ns: head += ' xmlns="%s"' % default_ns
     if use_base: head += ' xml:base="%s"' % BASE
     return head + ">\n" + "\n".join(body) + "\n</rdf:RDF>\n"
